@@ -2,8 +2,8 @@
   The loader's event handlers as SEQUENCES OF CALLS into the cell and the store (loader.py, master.py).
 
   Until now the master engine only RECORDED the calls `load_server`, `remove_server`, `reload_server`,
-  `adjust_server_state`, `set_server_valid_until`, `adjust_presence`, `load_app` and `load_identity_groups`
-  make into the real `Cell` (one `Sched.Op` line per call)
+  `adjust_server_state`, `set_server_valid_until`, `adjust_presence`, `load_app`, `load_identity_groups` and
+  `_handle_apps_blacklist_event` make into the real `Cell` (one `Sched.Op` line per call)
   and into the modelled part of the store (`w …` lines), and the Lean model followed them.  Here each
   handler is a function from (the decoded stored record(s) it reads, the part of the loader's tables it
   looks at, the choices the code leaves to objects that are not modelled) to the LIST of calls it makes,
@@ -247,5 +247,14 @@ def loadAppCalls (aid : Nat) (m : Option Manifest) (inCell : Bool) (asg : List A
 def identityGroupCalls (existing : List Nat) (stored : List (Nat × Option (Option Nat))) : List LCall :=
   let p := groupPlan existing stored
   p.1.map (fun g => .cell (.removeGroup g)) ++ p.2.map (fun q => .cell (.configureGroup q.1 q.2))
+
+/-! ### `Master._handle_apps_blacklist_event` -/
+
+/-- `load_apps_blacklist`, then the loop over `cell.apps`: EVERY instance of the cell gets the flag "some entry
+    of the NEW list matches its base name" (plain attribute writes, no call: the harness reports the flags the
+    instances have after the event).  `apps` = `cell.apps` as (instance, per entry of the new list: does it
+    match). -/
+def blacklistFlags (apps : List (Nat × List Bool)) : List (Nat × Bool) :=
+  apps.map (fun a => (a.1, a.2.any id))
 
 end TmVerif.LoaderOps
